@@ -613,6 +613,49 @@ def probe_entrypoints():
     return out
 
 
+def probe_legacy_shim():
+    """pyramid.security.LegacySecurityPolicy.permits (what the legacy authentication + authorization pair installs as
+    the security policy) called four times on ONE request: (c1,'p') (c2,'p') (c1,'q') (c1,'p'), the authorization policy
+    answering True / False / False / True.  Per call: which (context, permission, principals ok?) the AUTHORIZATION
+    policy was asked about during that call, and the truthiness returned."""
+    from pyramid.registry import Registry
+    from pyramid.request import Request
+    from pyramid.security import LegacySecurityPolicy
+    from pyramid.interfaces import IAuthenticationPolicy, IAuthorizationPolicy
+    calls = []
+    c1, c2 = object(), object()
+    ids = {id(c1): 1, id(c2): 2}
+    princ = ['system.Everyone', 'probe:user']
+
+    class Authn:
+        def effective_principals(self, request):
+            return list(princ)
+
+        def authenticated_userid(self, request):
+            return None
+
+    class Authz:
+        def permits(self, context, principals, permission):
+            calls.append([ids.get(id(context), 9), {'p': 1, 'q': 2}.get(permission, 9), list(principals) == princ])
+            return (ids.get(id(context)), permission) == (1, 'p')
+    reg = Registry()
+    reg.registerUtility(Authn(), IAuthenticationPolicy)
+    reg.registerUtility(Authz(), IAuthorizationPolicy)
+    req = Request.blank('/')
+    req.registry = reg
+    pol = LegacySecurityPolicy()
+    rows = []
+    for ctx, perm in ((c1, 'p'), (c2, 'p'), (c1, 'q'), (c1, 'p')):
+        del calls[:]
+        try:
+            r = bool(pol.permits(req, ctx, perm))
+        except Exception:
+            r = False
+            calls.append([9, 9, False])
+        rows.append({'ctx': ids[id(ctx)], 'perm': {'p': 1, 'q': 2}[perm], 'asked': [list(c) for c in calls], 'result': r})
+    return rows
+
+
 def probe_secure_defaults():
     """the default of the `secure` parameter of every view-lookup entry point (inspect.signature of the live objects)"""
     import inspect
@@ -636,7 +679,7 @@ def main():
     except Exception:
         pass
     for key, fn in (('secured', probe_secured), ('call_view', probe_call_view), ('multiview', probe_multiview),
-                    ('tween', probe_tween), ('phases', probe_phases), ('secure_defaults', probe_secure_defaults), ('view_defaults', probe_view_defaults), ('entrypoints', probe_entrypoints), ('directives', probe_directives), ('chain', probe_chain)):
+                    ('tween', probe_tween), ('phases', probe_phases), ('secure_defaults', probe_secure_defaults), ('view_defaults', probe_view_defaults), ('entrypoints', probe_entrypoints), ('legacy_shim', probe_legacy_shim), ('directives', probe_directives), ('chain', probe_chain)):
         if not res['own_tree']:
             res[key] = None
             continue
